@@ -8,6 +8,8 @@ package main
 
 import (
 	"bufio"
+	"crypto/sha1"
+	"encoding/hex"
 	"encoding/json"
 	"flag"
 	"math/rand"
@@ -167,6 +169,11 @@ func readTLCLines(path string, f func(raw []byte)) error {
 // caseRand: an independent, reproducible random stream per generated case
 func caseRand(shard, i int) *rand.Rand {
 	return rand.New(rand.NewSource(envSeed()*1000003 + int64(shard)*7919 + int64(i)*104729 + 17))
+}
+
+func shortHash(b []byte) string {
+	h := sha1.Sum(b)
+	return hex.EncodeToString(h[:6])
 }
 
 type familyFn func(args []string)
